@@ -8,7 +8,6 @@ import (
 
 	"github.com/corestario/kyber/share"
 
-	"github.com/lidofinance/dc4bc/client/api/dto"
 	fsmtypes "github.com/lidofinance/dc4bc/fsm/types"
 	"github.com/lidofinance/dc4bc/fsm/types/requests"
 	"github.com/lidofinance/dc4bc/pkg/utils"
@@ -95,7 +94,7 @@ func runC03Proposal(c *Ctx, ce *Ceremony, poly *share.PubPoly, r *sched.Rng, wi,
 		if hi > 18632 {
 			hi = 18632
 		}
-		spec.Range = &dto.Range{Start: lo, End: hi}
+		spec.Range = &world.Range{Start: lo, End: hi}
 		shape = fmt.Sprintf("api-range-%d", hi-lo)
 	default: // hand-built mixture
 		var tasks []requests.SigningTask
